@@ -37,7 +37,9 @@ P = {'id': 'C13',
              'mmap output, MmapDataInput, MemoryMappedInput, buffered / zero-copy / range wrappers), tuples up to 12, arrays, Result, HashMap/HashSet/BTreeMap/BTreeSet, '
              'nested collections, ComplexTypeSerializer configurations and batches, Box/Rc/Arc/Weak and shared-pointer contexts, VersionedSerialize records and '
              'VersionedSerializer configurations, VersionProxy ranges, bulk endian conversion, endianness magic, MmapZeroCopyReader, MultiRangeReader, '
-             'StreamBufferedWriter, ZeroCopyWriter, RangeWriter',
+             'StreamBufferedWriter, ZeroCopyWriter, RangeWriter; second pass (design/C13.md, "Oracle breadth"): preset constructors and configurations, the strategy chooser, '
+             'sequences and collections of up to 70 000 elements and inputs of up to 8.6 MB named by (kind, n, seed), VectoredIO, UTF-8 / CRC32C of buffered bytes, '
+             'ZeroCopyBuffer, seekable buffered / range / memory-mapped writers, MultiRangeReader range management, context reuse, cross-version records and migrations',
              ],
  'assumptions': ["wrapping (release) arithmetic in the model; the checked profile's panics are observed on the real code by the harness",
                  'agreement of model and code is established on the generated cases only',
